@@ -419,6 +419,51 @@ func obsChg(id string, text string, del bool) {
 	fmt.Fprintf(out, "path.chg\t%s\t%s\t%s\t%s\n", id, env.Hx(text), b01(del), res)
 }
 
+// obsChgBatch: several stored values - siblings beneath one parent, updates and deletes mixed - go through ONE call of
+// PathValuesToGnmiChange, as they do when a proposal is applied; every path of the request is reported as its own
+// path.chg line against the stored text it came from (positions: updates and deletes each keep the order of the values)
+func obsChgBatch(id string, texts []string, dels []bool) {
+	defer unexpected(id, "path.chg", "batch")
+	pvs := []*configapi.PathValue{}
+	for i, t := range texts {
+		pvs = append(pvs, &configapi.PathValue{Path: t, Value: strVal(fmt.Sprintf("v%d", i)), Deleted: dels[i]})
+	}
+	var req *gnmi.SetRequest
+	var err error
+	res := guarded(func() string {
+		req, err = values.PathValuesToGnmiChange(pvs, "t")
+		if err != nil {
+			return "err:" + errKind(err)
+		}
+		return "ok"
+	})
+	nu, nd := 0, 0
+	for i, t := range texts {
+		r := res
+		if res == "ok" {
+			if dels[i] {
+				if nd < len(req.Delete) {
+					r = "ok:" + encElems(req.Delete[nd].Elem)
+				} else {
+					r = "shape"
+				}
+				nd++
+			} else {
+				if nu < len(req.Update) {
+					r = "ok:" + encElems(req.Update[nu].Path.Elem)
+				} else {
+					r = "shape"
+				}
+				nu++
+			}
+		}
+		if strings.HasPrefix(res, "err") {
+			continue // one bad text fails the whole batch: the single-path observations cover the errors
+		}
+		fmt.Fprintf(out, "path.chg\t%s.%d\t%s\t%s\t%s\n", id, i, env.Hx(t), b01(dels[i]), r)
+	}
+}
+
 const (
 	modelName    = "devicesim"
 	modelVersion = "1.0.0"
@@ -854,6 +899,30 @@ func main() {
 		obsIdx(id, text)
 		obsValid(id, text)
 		obsChg(id, text, len(text)%2 == 0)
+	}
+
+	// batches: 2-4 siblings beneath a common parent of 0..8 elements in one southbound request
+	for i := 0; i < 160; i++ {
+		depth := i % 9
+		parent := []*gnmi.PathElem{}
+		for len(parent) < depth {
+			lv := 0
+			if r.Intn(5) == 0 {
+				lv = 1
+			}
+			parent = append(parent, genElem(r, lv))
+		}
+		n := 2 + r.Intn(3)
+		texts, dels := []string{}, []bool{}
+		for j := 0; j < n; j++ {
+			leaf := append(append([]*gnmi.PathElem{}, parent...), &gnmi.PathElem{Name: fmt.Sprintf("leaf%d", j)})
+			if r.Intn(4) == 0 {
+				leaf = append(leaf, genElem(r, 1))
+			}
+			texts = append(texts, utils.StrPathElem(leaf))
+			dels = append(dels, r.Intn(4) == 0)
+		}
+		obsChgBatch(fmt.Sprintf("%d:b%d", *seed, i), texts, dels)
 	}
 
 	// corpus first
